@@ -64,6 +64,6 @@ def setup(J):
         for g, targets in (("g4", ["q"]), ("g4", ["p"]), ("g7", ["r"]), ("g3", ["p"])):
             jobs.append(J.with_delay_fallback(J.wf("C16", g, 1, 1, 2, "func", oracles=["nohang", "clean", "c04", "c05", "c16-runto"], tier=tier, events_dep=False, runto=targets, runtohow="regex-ci", budget=20, id=f"C16-runto-{g}-{'+'.join(targets)}-regex-ci")))
         jobs.append(J.wf("C16", "g3", 1, 1, 2, "func", oracles=["nohang", "c16-unwired"], tier=tier, events_dep=False, runto=["-"], runtohow="regex-empty", id="C16-runto-g3-regex-no-patterns"))
-        return {"level": "model_checking", "native": True, "stages": [lambda ctx, prev: jobs, J.maporder_stage("C16", [], tier, graphs=("g8e",), per_job=True)],
+        return {"level": "model_checking", "native": True, "stages": [lambda ctx, prev: jobs, J.maporder_stage("C16", [], tier, graphs=("g8e", "g3", "g11"), per_job=True, keep_mode=lambda j: "-unwired-" in j["id"])],
                 "rule": "graphs G3-G8/G11: (a) every single file / parameter edge left unconnected -> exit != 0 and zero start events in every schedule; (b) consumers removed -> dangling out-ports, run completes with the reference result; (c) EVERY non-empty subset of processes as RunTo targets (by name, regex, process value): processes with start events = reference transitive closure over file and parameter edges, each task exactly once, reference files, C05 return predicate; all schedules by DPOR + sleep sets (delay bound 2 where not closed)",
                 "assumptions": J.BASE_ASSUMPTIONS}
